@@ -11,6 +11,7 @@ import (
 
 	"github.com/julienschmidt/httprouter"
 	"github.com/ory/herodot"
+	"github.com/pkg/errors"
 	"google.golang.org/grpc"
 
 	"github.com/ory/keto/internal/relationtuple"
@@ -115,7 +116,7 @@ func (h *handler) getExpand(w http.ResponseWriter, r *http.Request, _ httprouter
 func (h *handler) Expand(ctx context.Context, req *rts.ExpandRequest) (*rts.ExpandResponse, error) {
 	var subSet *ketoapi.SubjectSet
 
-	switch sub := req.Subject.Ref.(type) {
+	switch sub := req.GetSubject().GetRef().(type) {
 	case *rts.Subject_Id:
 		return &rts.ExpandResponse{
 			Tree: &rts.SubjectTree{
@@ -125,10 +126,12 @@ func (h *handler) Expand(ctx context.Context, req *rts.ExpandRequest) (*rts.Expa
 		}, nil
 	case *rts.Subject_Set:
 		subSet = &ketoapi.SubjectSet{
-			Namespace: sub.Set.Namespace,
-			Object:    sub.Set.Object,
-			Relation:  sub.Set.Relation,
+			Namespace: sub.Set.GetNamespace(),
+			Object:    sub.Set.GetObject(),
+			Relation:  sub.Set.GetRelation(),
 		}
+	default:
+		return nil, errors.WithStack(ketoapi.ErrNilSubject)
 	}
 
 	internal, err := h.d.ReadOnlyMapper().FromSubjectSet(ctx, subSet)
